@@ -163,6 +163,37 @@ void pl_lemma_nmonpre(void)
   STEP(NMON_Y1(y, (diff_t)(m)) == (Z)y, "no month carry for a month in 1..12");
   __CPROVER_assert(lemma_nmonpre_ENS(y, m, d, cd), "lemma_nmonpre.ENS");
 }
+void pl_lemma_stepmon(void)
+{
+  year_t y; int m; diff_t n;
+  __CPROVER_assume(lemma_stepmon_REQ(y, m, n));
+  STEP((Z)(n) == 12 * (Z)((n) / 12) + (n) % 12 && -12 < (n) % 12 && (n) % 12 < 12 && ((n) >= 0 ? (n) % 12 >= 0 && (n) / 12 >= 0 : (n) % 12 <= 0 && (n) / 12 <= 0), "truncating split of n");
+  STEP(FD((Z)12 * SM_Y(y, n) + (SM_M(m, n) - 1), 12) == SM_Y(y, n) + FD(SM_M(m, n) - 1, 12), "quotient by 12 of 12a+b");
+  STEP((Z)12 * FD(SM_M(m, n) - 1, 12) + FM(SM_M(m, n) - 1, 12) == SM_M(m, n) - 1 && -1 <= FD(SM_M(m, n) - 1, 12) && FD(SM_M(m, n) - 1, 12) <= 1, "small month sum");
+  __CPROVER_assert(lemma_stepmon_ENS(y, m, n), "lemma_stepmon.ENS");
+}
+void pl_lemma_fd12_mono(void)
+{
+  Z a, b;
+  __CPROVER_assume(lemma_fd12_mono_REQ(a, b));
+  __CPROVER_assert(lemma_fd12_mono_ENS(a, b), "lemma_fd12_mono.ENS");
+}
+void pl_lemma_monord_inj(void)
+{
+  fields a, b;
+  __CPROVER_assume(lemma_monord_inj_REQ(a, b));
+  __CPROVER_assert(lemma_monord_inj_ENS(a, b), "lemma_monord_inj.ENS");
+}
+void pl_lemma_nmonpre_carry(void)
+{
+  year_t y; diff_t m, d; Z cd;
+  __CPROVER_assume(lemma_nmonpre_carry_REQ(y, m, d, cd));
+  REVEAL_NMON_PRE(y, m, d, cd); REVEAL_NMON_PRE((year_t)NMON_Y1(y, m), (diff_t)(NMON_M1(m)), d, cd);
+  STEP(NMON_Y1((year_t)NMON_Y1(y, m), (diff_t)(NMON_M1(m))) == NMON_Y1(y, m) && NMON_M1((diff_t)(NMON_M1(m))) == NMON_M1(m), "a carried month carries nothing further");
+  USE(lemma_cong2_REQ(NMON_Y1((year_t)NMON_Y1(y, m), (diff_t)(NMON_M1(m))), NMON_Y1(y, m), NMON_M1((diff_t)(NMON_M1(m))), NMON_M1(m), 1),
+      lemma_cong2_ENS(NMON_Y1((year_t)NMON_Y1(y, m), (diff_t)(NMON_M1(m))), NMON_Y1(y, m), NMON_M1((diff_t)(NMON_M1(m))), NMON_M1(m), 1), "cong2");
+  __CPROVER_assert(lemma_nmonpre_carry_ENS(y, m, d, cd), "lemma_nmonpre_carry.ENS");
+}
 void pl_lemma_dm_lin(void)
 {
   Z a, b;
@@ -428,6 +459,12 @@ void pl_lemma_unitrepr(void)
   __CPROVER_assert(lemma_unitrepr_ENS(a), "lemma_unitrepr.ENS");
 }
 /* (a + n) - n == a   and   (a - b) + b == a,  per alignment: the operators are replaced by their contracts */
+#define C05_INJ_second(s, a)
+#define C05_INJ_minute(s, a)
+#define C05_INJ_hour(s, a)
+#define C05_INJ_day(s, a)
+#define C05_INJ_year(s, a)
+#define C05_INJ_month(s, a) USE(lemma_monord_inj_REQ(s, a), lemma_monord_inj_ENS(s, a), "monord_inj");
 #define C05_INVERSE(T) \
 void pl_C05_inverse_##T(void) \
 { \
@@ -436,6 +473,7 @@ void pl_C05_inverse_##T(void) \
   USE(lemma_unitrepr_REQ(a), lemma_unitrepr_ENS(a), "unitrepr"); \
   fields r = ct_##T##_plus(a, n); \
   fields s = ct_##T##_minus(r, n); \
+  C05_INJ_##T(s, a) \
   USE(lemma_osec_inj_REQ(s, a), lemma_osec_inj_ENS(s, a), "osec_inj"); \
   __CPROVER_assert(FIELDS_EQ(s, a), "C05: (a + n) - n == a"); \
 } \
@@ -446,6 +484,7 @@ void pl_C05_diffplus_##T(void) \
   USE(lemma_unitrepr_REQ(a), lemma_unitrepr_ENS(a), "unitrepr"); \
   diff_t d = ct_##T##_diff(a, b); \
   fields r = ct_##T##_plus(b, d); \
+  C05_INJ_##T(r, a) \
   USE(lemma_osec_inj_REQ(r, a), lemma_osec_inj_ENS(r, a), "osec_inj"); \
   __CPROVER_assert(FIELDS_EQ(r, a), "C05: (a - b) + b == a"); \
 }
@@ -454,6 +493,7 @@ C05_INVERSE(minute)
 C05_INVERSE(hour)
 C05_INVERSE(day)
 C05_INVERSE(year)
+C05_INVERSE(month)
 /* reachability probe for the inverse-law lemmas (goal marked probe=True, run with every C05 check: its assertion must FAIL) */
 void pl_C05_probe(void)
 {
